@@ -54,6 +54,7 @@ def main():
             sys.stdout.flush()
     finally:
         subprocess.run(["git", "-C", REPO, "checkout", "--", "."])
+        subprocess.run(["git", "-C", REPO, "clean", "-fdq", "-e", "target"])     # files the patch added
         subprocess.run(["git", "-C", ROOT, "checkout", "--", "evidence"])
     caught = [p for p, v in results.items() if v["rc"] == 1]
     print("CAUGHT-BY: " + (",".join(caught) or "none"))
